@@ -8,7 +8,7 @@ REPO=${REPO:-/repo}
 VERIF=$(cd "$(dirname "$0")/.." && pwd)
 SRC="$REPO/lib/libconfig.c $REPO/lib/scanctx.c $REPO/lib/scanner.c $REPO/lib/grammar.c $REPO/lib/strbuf.c $REPO/lib/strvec.c $REPO/lib/util.c $REPO/lib/wincompat.c"
 HDR=$(ls $REPO/lib/*.h)
-H=$( (cat $SRC $HDR "$REPO/lib/libconfigcpp.c++" "$VERIF/harness/drv.c" "$VERIF/harness/thr.c" "$VERIF/harness/drvxx.cc" "$0"; echo $V) | sha256sum | cut -c1-16)
+H=$( (cat $SRC $HDR "$REPO/lib/libconfigcpp.c++" "$VERIF/harness/drv.c" "$VERIF/harness/thr.c" "$VERIF/harness/drvxx.cc" "$VERIF/harness/memdrv.c" "$0"; echo $V) | sha256sum | cut -c1-16)
 OUT="$VERIF/build/harness/$V-$H"
 if [ ! -x "$OUT/drv" ]; then
   mkdir -p "$OUT"
@@ -62,6 +62,13 @@ if [ ! -x "$OUT/drv" ]; then
   mv "$OUT/drv.tmp" "$OUT/drv"
   # keep only the 6 most recent cached builds per variant
   ls -dt "$VERIF"/build/harness/$V-* 2>/dev/null | tail -n +7 | xargs -r rm -rf
+fi
+if [ "$V" = asan ]; then
+  # the capacity-arithmetic driver (strbuf / strvec / element vectors), realloc observed with --wrap
+  if [ ! -x "$OUT/memdrv" ]; then
+    gcc $FL $DEFS -I"$REPO/lib" -o "$OUT/memdrv.tmp" "$VERIF/harness/memdrv.c" $SRC -lpthread -Wl,--wrap=realloc 2>>"$OUT/build.log" || { cat "$OUT/build.log" >&2; exit 3; }
+    mv "$OUT/memdrv.tmp" "$OUT/memdrv"
+  fi
 fi
 if [ "$V" = tsan ] || [ "$V" = plain ]; then
   if [ ! -x "$OUT/thr" ]; then
